@@ -313,15 +313,19 @@ func (c *compiler) evalUpdateIndex(left, index, value interface{}) error {
 			if i < 0 || rv.Len()-1 < i {
 				err = fmt.Errorf("array index out of bounds, got index %d, while array size is %v", i, rv.Len())
 			} else {
-				elemType := reflect.TypeOf(left).Elem()
-				if elemType.Kind() != reflect.Interface {
-					t := reflect.ValueOf(value).Type()
-					if elemType != t {
-						err = fmt.Errorf("cannot use '%v' (untyped %s constant) as %s value in assignment", value, t, elemType)
-					}
+				elemType := rv.Type().Elem()
+				vv := reflect.ValueOf(value)
+				if !vv.IsValid() {
+					// nil: the element type's zero value
+					vv = reflect.Zero(elemType)
+				}
+				if t := vv.Type(); !t.AssignableTo(elemType) {
+					err = fmt.Errorf("cannot use '%v' (untyped %s constant) as %s value in assignment", value, t, elemType)
+				} else if !rv.Index(i).CanSet() {
+					err = fmt.Errorf("cannot assign to an element of %T: not addressable", left)
 				}
 				if err == nil {
-					rv.Index(i).Set(reflect.ValueOf(value))
+					rv.Index(i).Set(vv)
 				}
 			}
 		} else {
